@@ -118,15 +118,22 @@ CHECKS["C09"] = dict(level=MC, design="DESIGN.md section 6, C09", note=_SRH_NOTE
          "patch is assembled that each symbol the patch names reads (directly from the IR) the referent the reference "
          "cache reports.")
 
-CHECKS["C11"] = dict(level=MC, design="DESIGN.md section 6, C11 (claimed in part)", note=_SRH_NOTE + " PARTIAL CLAIM: only the "
-    "registration-order clause of C11 is decided. Independence from PYTHONHASHSEED, set iteration order and UUID draws is "
-    "NOT decided by this check (it quantifies over interpreter state rather than over values the code computes on; the "
-    "engine even fixes UUIDs and node hashing to make re-execution deterministic).",
-    technique=_SRH_TECH + "; self-composition over permutations of the registration order",
-    text="Self-composition: the same symbolic scenario is built twice over the same z3 variables and its 2-3 modifications "
+CHECKS["C11"] = dict(level=MC, design="DESIGN.md section 6, C11", note=_SRH_NOTE + " Hash-seed / UUID clause: hash seeds and UUID "
+    "draws reach the result only through the iteration order of hash-ordered collections; the library is re-compiled from the "
+    "current source with every iteration site (for / comprehension / starred / sorted, list, next, min, max ...) wrapped, and one "
+    "site at a time is presented reversed and (>= 3 elements) rotated by one - the (site, order) pair is an enumerated choice, all "
+    "numbers stay symbolic. Bounds of that clause: one perturbed site per run, two alternative orders, sites inside "
+    "gtirb_rewriting only (orders inside gtirb, gtirb_functions, gtirb_layout, mcasm, networkx are not varied); the UUID-value "
+    "clause additionally by swapping the magnitude of two function UUIDs on a shared-tail layout; repeated runs by using one Patch "
+    "object in two successive rewrites.",
+    technique=_SRH_TECH + "; self-composition over permutations of the registration order and over iteration orders of "
+              "hash-ordered collections (AST import hook over the current source)",
+    text="Self-composition: the same symbolic scenario is built twice over the same z3 variables and (a) its 2-3 modifications "
          "are registered in two different orders (every permutation that keeps the relative order of requests at the same "
-         "location). z3 decides that bytes, symbol positions, block boundaries, CFG edges, expressions, aux tables, "
-         "function tables and temporary-label names (compared exactly) are equal.")
+         "location), (b) one iteration site over a hash-ordered collection is presented in another order, (c) two function UUIDs "
+         "are swapped in magnitude, (d) a Patch object is reused in a second rewrite. z3 decides that bytes, symbol positions, "
+         "block boundaries, CFG edges, expressions, aux tables, function tables and temporary-label names (compared exactly) "
+         "are equal.")
 
 CHECKS["C10"] = dict(level=MC, design="DESIGN.md section 6, C10",
     note="Bounds: split/join on one interval with 0-3 (quick) / 0-4 (thorough) blocks at arbitrary symbolic offsets and sizes "
